@@ -108,7 +108,7 @@ def r2_mirrored_setters(r, facts):
                 inner_writes.append((loc, pe, v))
             else:
                 ap = access_path(pe)
-                if ap and ap[0][0] == 'arg' and ap[0][1] == 1 and ap[1] and not ap[1].split('.')[-1].isdigit():
+                if ap and ap[0][0] == 'arg' and ap[0][1] == 1 and ap[1] and not ap[1].split('.')[0].isdigit():
                     field_writes.append((loc, ap[1], v))
         r.inst('%s: inner writes=%d retained writes=%s' % (f.path, len(inner_writes), [fw[1] for fw in field_writes]), f.where())
         r.require(bool(inner_writes), 'setter:%s' % f.path, 'builder calls args_mut() but writes nothing through it', f.where())
@@ -207,6 +207,77 @@ def _buf_accessor_from_parts(facts, call_expr):
     return True
 
 
+def _done_polarity(g, facts, eb, b, tgt, de):
+    """True: the edge (b -> tgt) that leads to the successful exit is the one on which nothing is left to transfer;
+    False: it is the opposite edge; None: form not recognised (no verdict).  Forms: a switch on the remaining length
+    itself (`match parts().1 { 0 => done }`), `len == 0` / `len != 0` / `is_empty()`, `all(|v| v.len() == 0)` /
+    `any(|v| v.len() != 0)` over the iovecs, each possibly negated."""
+    t = g.term(b)
+    vals = {int(v): tg for v, tg in t['targets']}
+    neg = False
+    while de[0] == 'un' and de[1] == 'Not':
+        de, neg = de[2], not neg
+    if t.get('discr_ty') != 'bool' and not (de[0] == 'bin' or de[0] == 'call'):
+        # integer switch on the remaining length: value 0 = nothing left
+        if 0 in vals and any(x[0] == 'call' and x[1].endswith('::parts') for x in subexprs(de)):
+            return tgt == vals[0]
+        return None
+    on_true = (tgt == vals.get(1, t['otherwise'])) if 1 in vals or 0 in vals else None
+    if 0 in vals and tgt == vals[0]:
+        on_true = False
+    elif 0 in vals:
+        on_true = True
+    if on_true is None:
+        return None
+    if neg:
+        on_true = not on_true
+
+    def empty_test(e):
+        """'E' if e is true exactly when a length is 0, 'N' if true exactly when it is not, None otherwise"""
+        flip = False
+        while e[0] == 'un' and e[1] == 'Not':
+            e, flip = e[2], not flip
+        res = None
+        if e[0] == 'bin' and e[1] in ('Eq', 'Ne') and any(y[0] == 'const' and y[1] == 0 for y in (e[2], e[3])):
+            other = e[3] if (e[2][0] == 'const' and e[2][1] == 0) else e[2]
+            if any(x[0] == 'call' and (x[1].endswith('::len') or x[1].endswith('::parts') or x[1].endswith('total_len')) for x in subexprs(other)):
+                res = 'E' if e[1] == 'Eq' else 'N'
+        elif e[0] == 'call' and e[1].endswith('::is_empty'):
+            res = 'E'
+        if res and flip:
+            res = 'N' if res == 'E' else 'E'
+        return res
+    if de[0] == 'call' and de[1] in ('std::iter::Iterator::all', 'std::iter::Iterator::any'):
+        # the predicate closure
+        kinds = set()
+        for loc, t2 in g.calls():
+            if (t2.get('callee') or '') != de[1] or g.blocks[loc[0]]['cleanup'] or len(t2['args']) != 2 or 'l' not in t2['args'][1]:
+                continue
+            for d in g.defs.get(t2['args'][1]['l'], []):
+                st = g.at(d[0]) if not g.is_term(d[0]) else None
+                if st and st.get('k') == 'assign' and st['rv']['k'] == 'agg' and st['rv'].get('ak') == 'closure':
+                    cg = facts.fn_opt(st['rv'].get('closure') or '')
+                    if cg is not None:
+                        ce = ExprBuilder(cg, multi='phi')
+                        for l2, s2 in cg.assigns():
+                            if s2['lhs']['l'] == 0 and not s2['lhs']['p']:
+                                kinds.add(empty_test(ce.rvalue(s2['rv'])))
+        if len(kinds) != 1 or None in kinds:
+            return None
+        k = next(iter(kinds))
+        if de[1].endswith('::all') and k == 'E':
+            return on_true            # all empty  => done on the true edge
+        if de[1].endswith('::any') and k == 'N':
+            return not on_true        # any non-empty => done on the false edge
+        # `all(non-empty)` / `any(empty)`: neither edge means "everything transferred"
+        return False
+    k = empty_test(de)
+    if k is None:
+        return None
+    return on_true if k == 'E' else not on_true
+
+
+
 def r3_completion_test(r, facts):
     n = 0
     for g, loc, t in composites(facts):
@@ -228,6 +299,9 @@ def r3_completion_test(r, facts):
             whole = any(x[0] == 'call' and (x[1].endswith('::parts') or x[1] in ('std::iter::Iterator::all', 'std::iter::Iterator::any', 'io::traits::BufSlice::total_len', 'std::iter::Iterator::sum')) for x in subexprs(de))
             whole = whole or any(_buf_accessor_from_parts(facts, x) for x in subexprs(de))
             r.inst('%s: done-test %s' % (short(g.path), txt[:160]), g.where(g.term_loc(b)))
+            pol = _done_polarity(g, facts, eb, b, tgt, de)
+            r.inst('%s: done-test polarity: success on "%s"' % (short(g.path), {True: 'nothing left', False: 'SOMETHING LEFT', None: 'unrecognised'}[pol]), g.where(g.term_loc(b)))
+            r.require(pol is not False, '%s/done-test-polarity' % short(g.path), 'the successful exit is taken when the buffers still hold bytes to transfer (and the transfer goes on when they are empty): the composite reports success after a partial transfer', g.where(g.term_loc(b)))
             if indexed and not whole:
                 r.bad('%s/done-test' % short(g.path), 'completion is decided from one indexed buffer (%s): with an empty buffer in that position any partial transfer reports success' % (indexed[0],), g.where(g.term_loc(b)))
             elif not whole:
@@ -466,6 +540,115 @@ def r7_extract(r, facts):
     life.life8(r, facts)
 
 
+def r9_iovec_walk(r, facts):
+    """after a short vectored write/send the cumulative count of transferred bytes is distributed over the iovecs: buffers that
+    were transferred completely are emptied (`set_len(0)`) and their length is taken off the count, the first buffer that
+    was not is advanced by what is left of the count, and the walk stops there.  Decided per walk (whatever the loop is
+    written as: `for`, `try_fold`, ..): the count is a local initialised from the composite's `skip` field; on the edge
+    `len <= count` it is decreased by that element's length and the element emptied; `IoSlice::skip` gets the count."""
+    from . import c14
+    n = 0
+    for g, loc, t in facts.callers.get('io::traits::IoSlice::skip', []):
+        if t['k'] != 'call' or g.blocks[loc[0]]['cleanup'] or g.kind == 'closure' or not g.path.endswith('::poll_inner'):
+            continue
+        n += 1
+        name = short(g.path)
+        eg = ExprBuilder(g, multi='leaf')
+        R = c14.counter_local(g, lambda e: fam.last_field(e) == 'skip', eg)
+        if not r.require(R is not None, '%s/walk/counter' % name, 'the count of bytes to skip (initialised from self.skip, decreased per fully transferred buffer) was not found', g.where(loc)):
+            continue
+
+        def is_r(e):
+            while e[0] == 'cast':
+                e = e[4]
+            return e[0] == 'local' and e[1] == R
+        r.inst('%s: iovec walk with count _%d' % (name, R), g.where(loc))
+        r.require(is_r(eg.operand(t['args'][1])), '%s/walk/amount' % name, 'the partially transferred buffer is not advanced by what is left of the count: %s' % (eg.operand(t['args'][1]),), g.where(loc))
+        # the test that sends this element to skip(): its other edge is the "transferred completely" edge
+        full_e = None
+        for (b, tgt) in controlling_switches(g, loc):
+            e = eg.operand(g.term(b)['discr'])
+            if e[0] == 'bin' and e[1] in ('Le', 'Gt', 'Lt', 'Ge') and (is_r(e[2]) != is_r(e[3])):
+                others = [x for x in set(g.succ[b]) if x != tgt]
+                if len(others) == 1:
+                    full_e = (b, others[0])
+                    test = e
+        if not r.require(full_e is not None, '%s/walk/test' % name, 'comparison of the element length with the count not found', g.where(loc)):
+            continue
+        len_side = test[3] if is_r(test[2]) else test[2]
+        lens = [x for x in subexprs(len_side) if x[0] == 'call' and x[1].endswith('IoSlice::len')]
+        r.require(bool(lens), '%s/walk/test' % name, 'the count is not compared with the element length: %s' % (test,), g.where(loc))
+        dec = False
+        for l, ee in getattr(g, 'counter_defs', {}).get(R, []):
+            while ee[0] == 'cast' or (ee[0] == 'proj' and ee[2] == ('.0',)):
+                ee = ee[4] if ee[0] == 'cast' else ee[1]
+            sub = (ee[0] == 'bin' and ee[1].startswith('Sub') and is_r(ee[2]) and ee[3]) or \
+                  (ee[0] == 'call' and ee[1].endswith(('saturating_sub', 'wrapping_sub')) and len(ee[2]) == 2 and is_r(ee[2][0]) and ee[2][1]) or None
+            if sub and g.edge_dominates(full_e, Loc(*l)) and any(x[0] == 'call' and x[1].endswith('IoSlice::len') for x in subexprs(sub)):
+                dec = True
+        r.require(dec, '%s/walk/decrement' % name, 'the length of a completely transferred buffer is not taken off the count before the next buffer is looked at: the first partially transferred buffer is advanced by the cumulative count (beyond its data, or bytes are sent twice)', g.where(g.term_loc(full_e[0])))
+        emptied = [l for l, t2 in g.calls() if (t2.get('callee') or '').endswith('IoSlice::set_len') and g.edge_dominates(full_e, l)]
+        r.require(bool(emptied), '%s/walk/emptied' % name, 'a completely transferred buffer is not emptied (set_len(0)): its bytes are handed to the kernel again', g.where(g.term_loc(full_e[0])))
+        # the walk ends at the partially transferred buffer
+        nexts = [l for l, t2 in g.calls() if (t2.get('callee') or '') == 'std::iter::Iterator::next' and g.dominates(l, loc)]
+        if t.get('target') is not None and nexts:
+            hit = g.forward_paths_hit([Loc(t['target'], 0)], nexts)
+            r.require(hit is None, '%s/walk/continues' % name, 'the walk goes on after the partially transferred buffer: later buffers are advanced by the same count', g.where(loc))
+    r.require(n >= 2, 'walk/sites', 'expected the iovec walk of write_all_vectored and send_all_vectored, found %d' % n)
+    r.floor(2)
+
+
+
+def r10_wrapper_hooks(r, facts):
+    """buffer wrappers (found structurally: an impl of BufMut / BufMutSlice whose `parts_mut` / `as_iovecs_mut` only forwards to a
+    field of `self`) pass the completion on: `set_init(n)` / `buffer_init(id, n)` reach the inner buffer's method of the same
+    name with the same `n` on every path to a return, and a wrapper that keeps a `last_read` count stores `n` in it on every
+    path (read_n / recv_n decide "enough" and "end of stream" from it)."""
+    n_w = 0
+    for trait, probe in (('io::traits::BufMut', 'parts_mut'), ('io::traits::BufMutSlice', 'as_iovecs_mut')):
+        wrappers = []
+        for i, f in facts.impl_fns(trait, probe):
+            eb = ExprBuilder(f, multi='phi')
+            fw = [t for loc, t in f.calls() if (t.get('callee') or '') == '%s::%s' % (trait, probe) and t['args'] and fam.last_field(eb.operand(t['args'][0])) not in (None, '')
+                  and not f.blocks[loc[0]]['cleanup']]
+            if fw and not i['self'].startswith(('[', '(')):
+                wrappers.append(i)
+        for i in wrappers:
+            for it in i['items']:
+                if it['name'] not in ('set_init', 'buffer_init'):
+                    continue
+                f = facts.fn_opt(it['path'])
+                if f is None:
+                    continue
+                n_w += 1
+                name = '%s for %s::%s' % (trait.rsplit('::', 1)[1], i['self'].split('<')[0].rsplit('::', 1)[-1], it['name'])
+                eb = ExprBuilder(f, multi='phi')
+                n_arg = f.nargs          # the count is the last parameter of both hooks
+
+                def is_n(e):
+                    while e[0] == 'cast':
+                        e = e[4]
+                    return e[0] == 'arg' and e[1] == n_arg
+                inner = [(loc, t) for loc, t in f.calls() if (t.get('callee') or '') == '%s::%s' % (trait, it['name']) and not f.blocks[loc[0]]['cleanup']
+                         and t['args'] and fam.last_field(eb.operand(t['args'][0])) not in (None, '')]
+                good = [(loc, t) for loc, t in inner if is_n(eb.operand(t['args'][-1]))]
+                r.inst('%s: forwards to the inner buffer at %d site(s)' % (name, len(good)), f.where())
+                for loc, t in inner:
+                    r.require(is_n(eb.operand(t['args'][-1])), 'wrapper:%s/count' % name, 'the inner buffer is told %s instead of the count of this completion' % (eb.operand(t['args'][-1]),), f.where(loc))
+                hit = f.forward_paths_hit([Loc(0, 0)], f.returns(), blockers=[loc for loc, t in good])
+                r.require(hit is None, 'wrapper:%s/forward' % name, 'a path through %s returns without telling the inner buffer how many bytes the kernel wrote: the bytes of this completion are lost (never become part of the caller\'s buffer)' % it['name'], f.where())
+                # a `last_read` field of the wrapper
+                adt = facts.adts.get(i.get('self_adt') or '')
+                has_lr = adt is not None and any(fl['name'] == 'last_read' for v in adt['variants'] for fl in v['fields'])
+                if has_lr:
+                    stores = [loc for loc, s_ in f.assigns() if s_['lhs']['p'] and [p_.get('name') for p_ in s_['lhs']['p'] if p_['k'] == 'field'][-1:] == ['last_read'] and is_n(eb.rvalue(s_['rv']))]
+                    hit = f.forward_paths_hit([Loc(0, 0)], f.returns(), blockers=stores)
+                    r.require(hit is None, 'wrapper:%s/last_read' % name, 'a path through %s does not record the count of this completion in last_read: read_n / recv_n take the transfer for an end of stream (UnexpectedEof) or count it twice' % it['name'], f.where())
+    r.require(n_w >= 5, 'wrapper/sites', 'expected the completion hooks of the ReadNBuf and LimitedBuf wrappers (>= 5 methods), found %d' % n_w)
+    r.floor(5)
+
+
+
 def check(ctx):
     ctx.run('C10.R1', 'continuation arguments originate in retained fields of the composite', r1_continuation_args)
     ctx.run('C10.R2', 'builder setters write the inner argument and the retained field with the same value', r2_mirrored_setters)
@@ -474,5 +657,7 @@ def check(ctx):
     ctx.run('C10.R5', 'progress bookkeeping: skip/offset/left updates and the done condition', r5_bookkeeping)
     ctx.run('C10.R6', 'BufMut wrappers forward buffer_init iff parts (pool hooks)', r6_forwarding)
     ctx.run('C10.R7', 'successful result is the caller\'s buffer; reset asserts Complete', r7_extract)
+    ctx.run('C10.R9', 'vectored composites: the transferred count is distributed over the iovecs (emptied / decreased / advanced / stop)', r9_iovec_walk)
+    ctx.run('C10.R10', 'buffer wrappers pass every completion on to the inner buffer (same count, every path) and record last_read', r10_wrapper_hooks)
     from . import c13
     ctx.run('C10.R8', 'every completion tells the buffer its size (set_init/buffer_init on every path, from this completion): the read_n/recv_n counters depend on it (=C13.R5)', c13.r5_decoders)
